@@ -7,6 +7,11 @@
      biffrec recs  <hex stream>
      biffrec sheet <hex substream> <fmts> <1904> <strings>          (model of what `file` reads)
      biffrec enc   <fmts> <1904> <strings> <hex trailer> <items>    (encoder, spec, known class, model)
+       items, ';'-separated: N r c xf bits | R r c xf form | M r cf xf/form|… | S r c xf isst |
+         L r c xf wide units | B r c xf b | E r c xf e | D wide rf rl cf cl | O typ hex |
+         F r c xf cached grbit chn hexfmla [between]   cached = n:bits | b:0/1 | e:i | k |
+           s:wide:units[:wide:units]…  (STRING fragment, then one pair per CONTINUE record);
+           between = - | typ:hex|typ:hex  (records between FORMULA and STRING)
      biffrec fdiv  <bits>         hardware x/100.0 and Flocq's b64_div on the same bits (model side only)
    fmts: one digit per XF (0 Other, 1 DateTime, 2 TimeDelta), "-" for none;
    strings: "-" or comma-separated tokens "s<hex utf8>".
@@ -127,8 +132,21 @@ let cached_of_str (s : string) : cached =
   | ["b"; b] -> CBool (b = "1")
   | ["e"; e] -> CErr (cerr_of_int (int_of_string e))
   | ["k"] -> CBlank
-  | ["s"; w; u] -> CStr { s_units = units_of u; s_wide = (w = "1") }
+  | "s" :: w :: u :: more ->
+    (* s:<wide>:<units> then one <wide>:<units> pair per CONTINUE fragment *)
+    let rec frags l = match l with
+      | [] -> []
+      | w :: u :: rest -> { s_units = units_of u; s_wide = (w = "1") } :: frags rest
+      | _ -> failwith "bad string fragments" in
+    CStr ({ s_units = units_of u; s_wide = (w = "1") }, frags more)
   | _ -> failwith "bad cached value"
+(* records between FORMULA and STRING: "-" or typ:hex|typ:hex ("-" for an empty body) *)
+let mids_of_str (s : string) : (coq_N * coq_N list) list =
+  if s = "-" then [] else
+    List.map (fun t ->
+        match String.split_on_char ':' t with
+        | [typ; hx] -> (n_of_string typ, (if hx = "-" then [] else bytes_of_hex hx))
+        | _ -> failwith "bad between record") (String.split_on_char '|' s)
 let item_of_str (s : string) : item =
   let f = Array.of_list (String.split_on_char ' ' s) in
   let n i = n_of_string f.(i) in
@@ -145,7 +163,8 @@ let item_of_str (s : string) : item =
   | "L" -> ILabel (n 1, n 2, n 3, { s_units = units_of f.(5); s_wide = (f.(4) = "1") })
   | "B" -> IBool (n 1, n 2, n 3, f.(4) = "1")
   | "E" -> IErr (n 1, n 2, n 3, cerr_of_int (int_of_string f.(4)))
-  | "F" -> IFormula (n 1, n 2, n 3, cached_of_str f.(4), n 5, n 6, hexarg f.(7))
+  | "F" -> IFormula (n 1, n 2, n 3, cached_of_str f.(4), n 5, n 6, hexarg f.(7),
+                     (if Array.length f > 8 then mids_of_str f.(8) else []))
   | "D" -> IDims (f.(1) = "1", n 2, n 3, n 4, n 5)
   | "O" -> IOther (n 1, hexarg f.(2))
   | _ -> failwith "bad item"
